@@ -164,12 +164,14 @@ def check_slots(ck, R1):
     # roles: RESG = the returned list; QR = what the metadata source answered for QF; QF = the list of
     # misses; CACHE = the per-position cache answers; the cursor is the counter indexing QR
     gr = gm.returns()
-    RESG = gr[0].value.id if len(gr) == 1 and isinstance(gr[0].value, ast.Name) else "results"
+    rnames = sorted({r.value.id for r in gr if isinstance(r.value, ast.Name)})
+    RESG = rnames[0] if len(rnames) == 1 else "results"
     qcalls = [c for c in gm.calls("get_mementos") if A.norm(A.call_recv(c)) == "self._metadata_source"]
-    qcall = gm.one(qcalls, "metadata-source get_mementos call")
-    QF = qcall.args[0].id if qcall.args and isinstance(qcall.args[0], ast.Name) else None
-    qst = gm.stmt_of(qcall)
-    QR = qst.targets[0].id if isinstance(qst, ast.Assign) and isinstance(qst.targets[0], ast.Name) and qst.value is qcall else None
+    gm.some(qcalls, "metadata-source get_mementos call")
+    bound = [c for c in qcalls if isinstance(gm.stmt_of(c), ast.Assign) and gm.stmt_of(c).value is c and isinstance(gm.stmt_of(c).targets[0], ast.Name)]
+    qcall = bound[0] if len(bound) == 1 else None
+    QF = qcall.args[0].id if qcall is not None and qcall.args and isinstance(qcall.args[0], ast.Name) else None
+    QR = gm.stmt_of(qcall).targets[0].id if qcall is not None else None
     ccalls = [c for c in gm.calls("get_mementos") if A.norm(A.call_recv(c)) == "self._memory_cache"]
     cst = gm.stmt_of(ccalls[0]) if ccalls else None
     CACHE = cst.targets[0].id if isinstance(cst, ast.Assign) and isinstance(cst.targets[0], ast.Name) else None
